@@ -81,3 +81,28 @@ def arg_of(ctx: Ctx, e: Effect, param: str, pos: int) -> Optional[ast.expr]:
     if pos < len(e.args):
         return e.args[pos]
     return None
+
+
+def flatten_check(ctx, rule: str, construct: str, fi, p, upto: int, rname: str, param: str = "object_results") -> None:
+    """`param` is a flat list of results or a list of per-frame lists; `rname` (the list that is scored) must be the input itself in the flat /
+    empty case and a FRESH list to which every frame's list is added once, unconditionally, in the nested case."""
+    cdp = {S(c[0]): c[1] for c in p.conds if isinstance(c, tuple)}
+    nonempty, first_is_list = cdp.get(f"truthy:{param}"), cdp.get(f"isinstance:{param}[0],list")
+    lps_all = [e for i, e in enumerate(p.effects) if i < upto and e.kind == "loop"]
+    last_asg = [S(e.value) for i, e in enumerate(p.effects) if i < upto and e.kind == "assign" and e.recv == rname and not S(e.value).startswith("sorted(")]
+    if not last_asg and p.env.get(rname) is not None and not lps_all:
+        last_asg = [S(p.env.get(rname))]
+    if nonempty is not None and (nonempty is False or first_is_list is not None):
+        is_nested = bool(nonempty and first_is_list)
+        if is_nested:
+            okc = len(lps_all) == 1 and S(lps_all[0].text) == param and last_asg[-1:] in (["[]"], ["list()"])
+            var = U(lps_all[0].node.target) if lps_all and isinstance(lps_all[0].node.target, ast.Name) else "?"
+            okc = okc and all([(x.kind, strip_v(x.recv), x.name, S(x.value)) for x in bp.effects if x.kind in ("aug", "assign", "store")] == [("aug", rname, "Add", var)] and not bp.conds and bp.exit == ("fall",)
+                              for bp in lps_all[0].body)
+            ctx.check(okc, rule, construct, "collects:nested", f"nested (per-frame) input: the scored list `{rname}` is not a fresh list to which every frame's list is added once, unconditionally", fi=fi,
+                      expected="all = []; for frame in object_results: all += frame", found=f"init {last_asg[-1:]}, loops {[S(e.text) for e in lps_all]}")
+        else:
+            ctx.check(not lps_all and last_asg[-1:] == [param], rule, construct, f"collects:flat:{int(bool(nonempty))}",
+                      f"flat (or empty) input: the scored list is `{last_asg[-1:]}` after {len(lps_all)} loop(s); expected the input list itself", fi=fi)
+    else:
+        ctx.check(False, rule, construct, "collects:dispatch", f"flat / nested input is not told apart by `len({param}) == 0 or not isinstance({param}[0], list)` on [{p.cond_text()[:100]}]", fi=fi)
